@@ -20,7 +20,9 @@ import (
 )
 
 func init() {
-	slog.SetDefault(slog.New(slog.NewTextHandler(io.Discard, nil)))
+	// no record is ever handled (level above every level in use): a handler's mutex would order the requests of
+	// all connections and hide unsynchronised sharing between them from the race detector
+	slog.SetDefault(slog.New(slog.NewTextHandler(io.Discard, &slog.HandlerOptions{Level: slog.Level(100)})))
 }
 
 // connEnv is the real server wired exactly as cmd/ps3netsrv-go/server.go wires it, except that the
@@ -31,8 +33,16 @@ type connEnv struct {
 	ln   *memListener
 }
 
+// plainFs: the next server is wired without the recorder (whose mutex orders every file-system call of every
+// connection and thereby hides unsynchronised sharing between connections from the race detector)
+var plainFs bool
+
 func newConnEnv(root string, allowWrite bool, bufSize int64) *connEnv {
 	rec := newRecFs(afero.NewOsFs())
+	var under afero.Fs = rec
+	if plainFs {
+		under = yieldFs{afero.NewOsFs()}
+	}
 	var cop *copier.Copier
 	if bufSize > 0 {
 		cop = copier.NewPooledCopier(bufSize)
@@ -41,11 +51,11 @@ func newConnEnv(root string, allowWrite bool, bufSize int64) *connEnv {
 	}
 	s := &server.Server[handler.State]{
 		Handler: &handler.Handler{
-			Fs:         &fs.FS{Fs: afero.NewBasePathFs(rec, root)},
+			Fs:         &fs.FS{Fs: afero.NewBasePathFs(under, root)},
 			AllowWrite: allowWrite,
 			Copier:     cop,
 		},
-		Logger: slog.New(slog.NewTextHandler(io.Discard, nil)),
+		Logger: slog.New(slog.NewTextHandler(io.Discard, &slog.HandlerOptions{Level: slog.Level(100)})),
 	}
 	ln := newMemListener()
 	go s.Serve(ln)
